@@ -368,17 +368,19 @@ pub fn run(opts: &Opts) -> i32 {
     rep.set("rule", "case = prior replica state (T1,T2 each absent / empty / with a property, unsynced or synced) x every batch over {Create, Update p=a, Update p=absent, Delete} x {T1,T2} + status=pending + UndoPoint up to the length bound, valid or not (SQLite: all batches up to length 2-3, plus every batch of exactly 4 (thorough 5) operations on one task); each executed through the real Replica::commit_operations on the in-memory and the SQLite storage; oracles: reference model one-at-a-time, batch-vs-single differential, operation log = old log + batch, tasks = base + pending, and for every storage call index an injected error must leave the whole observable state unchanged; plus batches of 1200 (thorough 5000) operations with an injected error at every storage call (SQLite: every transaction boundary + every 97th call); non-trivial = batches containing an operation that is invalid where it is applied");
     let q = opts.tier == Tier::Quick;
     run_kind(&rep, Kind::Mem, if q { 4 } else { 5 }, false, if q { 3 } else { 4 });
-    run_kind(&rep, Kind::Sqlite, if q { 2 } else { 3 }, q, 2);
-    if q {
-        // length-3 batches on a few SQLite priors
-        run_kind(&rep, Kind::Sqlite, 3, true, 0);
-    }
+    // SQLite, cheapest parts first (the part with an injected error at every storage call re-opens a
+    // database per run and is the one a busy machine cuts short):
     // longer batches on ONE task (update, delete, re-create, update again inside one commit): all
-    // batches of exactly 4 (thorough: and 5) operations over the five task-1 operations, SQLite
+    // batches of exactly 4 (thorough: and 5) operations over the five task-1 operations
     run_kind_over(&rep, Kind::Sqlite, 4, true, 0, true);
     if !q {
         run_kind_over(&rep, Kind::Sqlite, 5, true, 0, true);
     }
+    if q {
+        // length-3 batches on a few SQLite priors
+        run_kind(&rep, Kind::Sqlite, 3, true, 0);
+    }
+    run_kind(&rep, Kind::Sqlite, if q { 2 } else { 3 }, q, 2);
     // very large batches: still one atomic commit whatever the size (in memory: an error at every
     // storage call; SQLite: at every transaction begin/commit call and every 97th other call)
     let sizes: &[usize] = if q { &[1200] } else { &[1200, 5000] };
